@@ -448,7 +448,7 @@ func init() {
 			defer closeBackends(bes)
 			world := func(s *vh.Sched) func(*vh.Sched, vh.SchedResult) {
 				cfg := faultConfig(c.Strategy, bes, featureCfg{})
-				s.Only = map[string]bool{"lb.proxy.inc": true, "lb.proxy.dec": true}
+				s.Only = map[string]bool{"lb.proxy.inc": true, "lb.proxy.dec": true, "lb.proxy.publish": true}
 				if c.Eject {
 					cfg.HealthChecks.Passive = config.PassiveHealthCheckConfig{Enabled: true, UnhealthyThreshold: 1, UnhealthyTimeout: 30}
 					for _, b := range bes {
